@@ -512,6 +512,10 @@ func runC20(h *Harness) {
 			}
 			h.Violation("C20.lifecycle-leak", "goroutine-leak:"+leakClass(alive), "cycle %d: %d task(s) of the instance are still alive 42 s after Cleanup: %v", c+1, len(alive), short)
 		}
+		h.R.Checks++
+		if open := h.Disk.OpenDatabases(); len(open) > 0 {
+			h.Violation("C20.lifecycle-leak", "db-handles-open", "cycle %d: 42 s after Cleanup %d database(s) of the instance are still open (their locks are held): %v", c+1, len(open), open)
+		}
 		checkQuiescent(n, fmt.Sprintf("cycle %d after cleanup", c+1))
 		if len(h.R.Violations) > 0 {
 			return
